@@ -369,9 +369,12 @@ def main():
         "wall_s": round(time.time() - t0, 2),
         "violations": 1 if replay_path else 0,
     }
-    os.makedirs(os.path.join(VERIF, "evidence"), exist_ok=True)
-    with open(os.path.join(VERIF, "evidence", f"{prop}.json"), "w") as f:
-        json.dump(ev, f, indent=1, default=str)
+    if os.path.realpath(core.REPO) == "/repo":
+        os.makedirs(os.path.join(VERIF, "evidence"), exist_ok=True)
+        with open(os.path.join(VERIF, "evidence", f"{prop}.json"), "w") as f:
+            json.dump(ev, f, indent=1, default=str)
+    else:
+        log(f"[{prop}] BIGTREE_REPO={core.REPO}: evidence file not rewritten (evidence comes from /repo only)")
     log(f"[{prop}] tier={tier} seed={seed} cases={len(cases)} mismatches={len(mismatches)} oracle_fails={len(oracle_fails)} "
         f"theorems={len(discharged)}/{len(theorems)} wall={time.time()-t0:.1f}s")
     if replay_path:
@@ -426,7 +429,7 @@ def do_replay(mod, prop, path):
         try:
             b = run_model(prop, payload.get("handler", prop), [c])[0]
             print("model:", b)
-            if b != out:
+            if not getattr(mod, "compare", lambda x, y, z: x == y)(out, b, c):
                 print(f"VIOLATION property={prop} replay={os.path.relpath(path, VERIF)} no-failing-input-found")
                 return 1
         except Exception as e:
